@@ -5,10 +5,16 @@ use serde_json::Value;
 pub mod c01;
 pub mod c02;
 pub mod c03;
+pub mod c04;
 pub mod c05;
+pub mod c08;
+pub mod c09;
 pub mod c10;
+pub mod c12;
+pub mod c13;
+pub mod c17;
 
-pub const ALL: &[&str] = &["C01", "C02", "C03", "C05", "C10"];
+pub const ALL: &[&str] = &["C01", "C02", "C03", "C04", "C05", "C08", "C09", "C10", "C12", "C13", "C17"];
 
 pub fn run(id: &str, ctx: &Ctx) {
     match id {
@@ -16,7 +22,13 @@ pub fn run(id: &str, ctx: &Ctx) {
         "C02" => c02::run(ctx),
         "C03" => c03::run(ctx),
         "C10" => c10::run(ctx),
+        "C04" => c04::run(ctx),
         "C05" => c05::run(ctx),
+        "C08" => c08::run(ctx),
+        "C09" => c09::run(ctx),
+        "C12" => c12::run(ctx),
+        "C13" => c13::run(ctx),
+        "C17" => c17::run(ctx),
         _ => {
             eprintln!("unknown property {id}");
             std::process::exit(2);
@@ -30,7 +42,13 @@ pub fn replay(id: &str, ctx: &Ctx, sub: &str, case: &Value) -> Vec<Violation> {
         "C02" => c02::replay(ctx, sub, case),
         "C03" => c03::replay(ctx, sub, case),
         "C10" => c10::replay(ctx, sub, case),
+        "C04" => c04::replay(ctx, sub, case),
         "C05" => c05::replay(ctx, sub, case),
+        "C08" => c08::replay(ctx, sub, case),
+        "C09" => c09::replay(ctx, sub, case),
+        "C12" => c12::replay(ctx, sub, case),
+        "C13" => c13::replay(ctx, sub, case),
+        "C17" => c17::replay(ctx, sub, case),
         _ => {
             eprintln!("unknown property {id}");
             std::process::exit(2);
